@@ -55,6 +55,9 @@ def cases(tier, seed):
     for p in GM.gen(2, with_opts=False):
         for a, w in (((2, 4, 8), (2, 4, 8)), ((8, 2), (4, 2, 8))):
             out.append({'mode': 'layer', 'prog': p, 'a': list(a), 'w': list(w), 'tier': tier})
+    for p in GM.gen_twice():
+        for a, w in (((2, 4, 8), (2, 4, 8)), ((8, 2), (4, 2, 8))):
+            out.append({'mode': 'layer', 'prog': p, 'a': list(a), 'w': list(w), 'tier': tier})
     for p in GM.gen(1, with_opts=False):
         if p['head'] == 'flatlin':
             for a in GM.precision_tuples():
@@ -79,7 +82,7 @@ def _orig_shapes(prog, seed):
     hooks = []
     for n, m in model.named_modules():
         if isinstance(m, (nn.Conv2d, nn.Linear)):
-            hooks.append(m.register_forward_hook(lambda mod, i, o, n=n: shapes.__setitem__(n, tuple(o.shape))))
+            hooks.append(m.register_forward_hook(lambda mod, i, o, n=n: shapes.setdefault(n, []).append(tuple(o.shape))))
     with torch.no_grad():
         model(x)
     for h in hooks:
@@ -88,7 +91,7 @@ def _orig_shapes(prog, seed):
     for n, m in model.named_modules():
         if isinstance(m, nn.Conv2d):
             info[n] = {'type': 'conv', 'cin': m.in_channels, 'cout': m.out_channels, 'k': m.kernel_size, 'dw': m.groups == m.in_channels == m.out_channels and m.groups > 1,
-                       'out_hw': shapes[n][2:]}
+                       'out_hw': shapes[n][0][2:], 'sites': sum(sh[2] * sh[3] for sh in shapes[n])}
         elif isinstance(m, nn.Linear):
             info[n] = {'type': 'linear', 'cin': m.in_features, 'cout': m.out_features}
     return info, model
@@ -113,6 +116,9 @@ def _producers(prog):
         elif op == 'skipadd':
             prod[f'blocks.s{i}a'] = T
             T = f'blocks.s{i}a'
+        elif op == 'twice':           # (per-layer search only: every channel is alive at both call sites)
+            prod[f'blocks.s{i}'] = T
+            T = f'blocks.s{i}'
     h = prog.get('head', 'flatlin')
     if h in ('flatlin', 'gaplin'):
         prod['head.fc'] = T
@@ -153,7 +159,7 @@ def _ref_costs(prog, info, summ, model):
         in_bits = summ[name]['in_precision']
         if li['type'] == 'conv':
             kk = li['k'][0] * li['k'][1]
-            sites = li['out_hw'][0] * li['out_hw'][1]
+            sites = li['sites']       # output positions summed over every call site of the layer
             per_out = kk if li['dw'] else kk * in_alive
         else:
             sites = 1
@@ -290,6 +296,9 @@ def run_case(case, seed):
         sweep_quick = case.get('sweep') and tier == 'quick'
         assigns, complete, init = enum_assignments(sels, 0 if sweep_quick else b['complete_cap'], 1)
         todo = [{'assign': list(asg), 'train_hard': th} for asg in assigns for th in (False, True)]
+        # exactly tied maxima (a uniform / all-zero initialisation is one): whichever alternative summary() reports must be the
+        # single one the cost charges
+        todo += [{'tie': t, 'train_hard': th} for t in range(3) for th in (False, True)]
     else:
         # per-channel selectors are matrices (P, C): enumerate every column pattern of one selector at a time
         todo = []
@@ -318,7 +327,19 @@ def run_case(case, seed):
             continue
         cur[0] = label
         with torch.no_grad():
-            if mode == 'layer':
+            if mode == 'layer' and 'tie' in label:
+                for _, m in sels:
+                    n = m.alpha.shape[0]
+                    t = torch.zeros(n)
+                    if label['tie'] == 1 and n > 2:
+                        t[0] = -1.0             # tie among all but the first
+                    elif label['tie'] == 2:
+                        t += 0.3
+                        if n > 2:
+                            t[1:n - 1] = -0.5   # tie between the first and the last
+                    m.alpha.copy_(t)
+                moved = 1
+            elif mode == 'layer':
                 set_assignment(sels, label['assign'], 0, via=res['states'])
                 moved = sum(1 for p, q in zip(label['assign'], init) if p != q)
             else:
